@@ -260,11 +260,10 @@ void NifFile::SetShapeOrder(const std::vector<std::string>& order) {
 			sortState.rootShapeOrder.push_back(GetBlockID(shape));
 	}
 
+	// New indices start at 0 with the root node, wherever the root currently is
 	auto root = GetRootNode();
-	if (root) {
-		sortState.newIndex = GetBlockID(root);
-		SetSortIndices(sortState.newIndex, sortState);
-	}
+	if (root)
+		SetSortIndices(GetBlockID(root), sortState);
 
 	for (size_t i = 0; i < sortState.newIndices.size(); i++) {
 		uint32_t index = static_cast<uint32_t>(i);
